@@ -105,6 +105,22 @@ FileOrderInput(file) == IF file = <<>> THEN <<>>
 (* is [via, ok, digest]: ok = a hash was reported, digest = Seq(0..255).   *)
 (***************************************************************************)
 HashInputOkP(areas, hin)      == hin = ConcatSorted(areas)
+\* the number of bytes hashed is the size of the image (judged on images of every size; the byte
+\* comparison above only on images small enough to travel to TLC)
+HashedLengthP(total, n)       == n = total
+
+(***************************************************************************)
+(* Size classes.  In the model a "byte" of an area is a unit; a size class *)
+(* gives every unit its real length, so that area lengths land on, below   *)
+(* and above the block / page / zone sizes code may treat specially.  ulen *)
+(* = sequence indexed by unit id.                                          *)
+(***************************************************************************)
+RECURSIVE WLen(_, _)
+WLen(units, ulen) == IF units = <<>> THEN 0 ELSE ulen[Head(units)] + WLen(Tail(units), ulen)
+RECURSIVE ImageLen(_, _)
+ImageLen(areas, ulen) == IF areas = {} THEN 0
+                         ELSE LET a == CHOOSE x \in areas : TRUE
+                              IN  WLen(a.d, ulen) + ImageLen(areas \ {a}, ulen)
 DigestOkP(expected, report)   == report.ok => report.digest = expected
 
 (***************************************************************************)
